@@ -351,6 +351,14 @@ def playback(fam, prog, h, log, want_cover=None):
         # keep the assertion-labelled tests first, but also run the cover-labelled ones (same harness, same
         # assertions): the violation reproduces iff ANY of them fails natively.
         blocks = [b for b in blocks if "Check for `cover`" not in b] + [b for b in blocks if "Check for `cover`" in b]
+    # identical concrete values give identical test names: keep the first of each
+    seen, uniq = set(), []
+    for b in blocks:
+        mm = re.search(r"fn (kani_concrete_playback_\w+)", b)
+        if mm and mm.group(1) not in seen:
+            seen.add(mm.group(1))
+            uniq.append(b)
+    blocks = uniq
     if not blocks:
         return None, None, out[-4000:]
     test_src = "\n".join(blocks)
